@@ -359,6 +359,7 @@ fn _codegen_callable_closure_body(
                 assert_eq!(current_index, dfs.start);
                 let mut ok_arm = None;
                 let mut ok_binding_variable = None;
+                let mut ok_is_borrowed_mutably = false;
                 let mut err_arm = None;
                 for variant_index in variants {
                     let mut at_most_once_constructor_blocks = IndexMap::new();
@@ -415,6 +416,9 @@ fn _codegen_callable_closure_body(
                     match variant_type {
                         MatchResultVariant::Ok => {
                             ok_binding_variable = Some(match_binding_parameter_name.clone());
+                            ok_is_borrowed_mutably = call_graph
+                                .edges_directed(variant_index, Direction::Outgoing)
+                                .any(|e| e.weight() == &CallGraphEdgeMetadata::ExclusiveBorrow);
                             ok_arm = Some(match_arm_body);
                         }
                         MatchResultVariant::Err => {
@@ -436,9 +440,12 @@ fn _codegen_callable_closure_body(
                     .next()
                     .unwrap();
                 let result_binding = &blocks[&result_node_index];
+                // The `Ok` value may be borrowed mutably by its dependents, just like any other
+                // value we bind to a variable.
+                let maybe_mut = ok_is_borrowed_mutably.then(|| quote! {mut});
                 let block = quote! {
                     {
-                        let #ok_binding_variable = match #result_binding {
+                        let #maybe_mut #ok_binding_variable = match #result_binding {
                             Ok(ok) => ok,
                             #err_arm
                         };
